@@ -281,3 +281,23 @@ impl<V> DotBuilder for DateTimeMatcher<V> {
         Some(node_name)
     }
 }
+
+#[cfg(feature = "verif")]
+impl<T> DateTimeMatcher<T> {
+    /// Canonical (sorted) rendering of the matcher state (verification hook)
+    pub fn verif_snapshot(&self) -> String {
+        let groups: Vec<String> = self
+            .condition_groups
+            .iter()
+            .map(|(conditions, matcher)| format!("{:?}=>{}", conditions, matcher.verif_snapshot()))
+            .collect();
+
+        format!(
+            "DT{{count:{},any:{},conditions:{:?},groups:[{}]}}",
+            self.count,
+            self.any_datetime.verif_snapshot(),
+            self.conditions,
+            groups.join(",")
+        )
+    }
+}
